@@ -408,7 +408,32 @@ func c19RunRef(sys *actorSystem, pid *PID, tgt *c19Target, sc c19Script) (res c1
 		}
 	}
 	if lost != nil {
-		waitDeliveries(lost, 1)
+		// owed, but the job may have left the scheduler: wait for the delivery only while the
+		// job is still listed (watchdog 20s), and 40 periods (>= 3s) once it is not
+		listedNow := func() bool {
+			for _, info := range sys.ListSchedules() {
+				if info.Reference == sc.Ref {
+					return true
+				}
+			}
+			return false
+		}
+		deadline := time.Now().Add(20 * time.Second)
+		var goneSince time.Time
+		for time.Now().Before(deadline) && len(tgt.deliveries(sc.Ref, lost.Gen)) == 0 {
+			if listedNow() {
+				goneSince = time.Time{}
+			} else if goneSince.IsZero() {
+				goneSince = time.Now()
+			} else if w := time.Duration(40 * lost.Period); time.Since(goneSince) > w && time.Since(goneSince) > 3*time.Second {
+				break
+			}
+			time.Sleep(10 * time.Millisecond)
+		}
+		if len(tgt.deliveries(sc.Ref, lost.Gen)) == 0 && listedNow() {
+			res.Inconc = fmt.Sprintf("resumed once message of %s still queued after 20s", sc.Ref)
+			return res
+		}
 	}
 	if cur != nil {
 		cancel()
@@ -417,20 +442,6 @@ func c19RunRef(sys *actorSystem, pid *PID, tgt *c19Target, sc c19Script) (res c1
 	// quiescence: no new delivery for 5 x the largest period (ticks of a job that was not
 	// removed would keep coming)
 	var maxP int64 = int64(100 * time.Millisecond)
-	stable := func() {
-		last := tgt.n.Load()
-		lastChange := time.Now()
-		for time.Since(lastChange) < time.Duration(5*maxP) {
-			time.Sleep(20 * time.Millisecond)
-			if n := tgt.n.Load(); n != last {
-				last, lastChange = n, time.Now()
-			}
-			if time.Since(lastChange) > 20*time.Second {
-				break
-			}
-		}
-	}
-	_ = stable
 	time.Sleep(time.Duration(5 * maxP))
 	limit := now()
 
@@ -702,9 +713,10 @@ func TestVerif_C19(t *testing.T) {
 	var cobs c19ClusterObs
 	var cwg sync.WaitGroup
 	cwg.Add(1)
+	cseed, cticks := rng.Int63(), r.N(240, 8000)
 	go func() {
 		defer cwg.Done()
-		cobs = c19ClusterPart(t, rng.Int63(), r.N(240, 8000), true)
+		cobs = c19ClusterPart(t, cseed, cticks, true)
 	}()
 
 	sys := vfNewSystem(t)
